@@ -15,12 +15,15 @@ LEVEL_TEXT = ("a TLA+ contract of an aligned heap (an allocation answer is null,
               "both back ends; AlignedVector is a TLA+ sequence model whose state-graph histories are replayed on the real vectors for four "
               "element sizes (contents, sizes, data() mod 64, length_error of allocate beyond max_size()) and whose recorded long random "
               "executions are validated by TLC")
-LEVEL_NOTE = ("bounded: model address space 1..8 (thorough 1..12), sizes 0..3 (0..4), alignments 1/2/4, 3 live blocks; size_t model of 8 bits "
-              "for the overflow guard; vectors of <= 3 elements over 2 values for exhaustive histories; real executions: sizes "
-              "{0,1,7,8,63,64,65,4095,4096,4097,2^20} and 5 huge sizes x the 13 alignments 1..4096, <= 26 live blocks, seeded random; "
-              "back ends: TBB scalable allocator (not interposable: no sanitizer inside it), _mm_malloc -> glibc, _mm_malloc -> ASan allocator "
-              "(ASan/UBSan/LSan observe overruns and unreleased blocks there).  Allocator internals are observed, not modelled.  'Released' is "
-              "observed as: no unreachable freed block (LSan, ASan build) and bounded resident-set growth over alloc/free cycles (plain builds). "
+LEVEL_NOTE = ("bounded: model address space 1..8 (thorough 1..12), sizes 0..3 (0..4), alignments 1/2/4, 3 live blocks (plus 1..6 / 2 blocks with "
+              "stale content after free); size_t model of 8 bits for the overflow guard; vectors of <= 3 elements over 2 (thorough 3) values for "
+              "the model, over 1 value + the default for exhaustive histories; real executions: sizes {0,1,7,8,63,64,65,4095,4096,4097,2^20} and "
+              "5 huge sizes x the 13 alignments 1..4096, <= 26 live blocks, seeded random; vectors up to ~150 elements of 1/4/12/64 bytes. "
+              "Back ends: TBB scalable allocator (not interposable: no sanitizer inside it, an under-allocation there is only visible as a "
+              "corrupted neighbour), _mm_malloc -> glibc, _mm_malloc -> ASan allocator (ASan/UBSan/LSan observe overruns and unreleased blocks "
+              "there).  Allocator internals are observed, not modelled.  'Released' is observed as: no unreachable freed block (LSan, ASan "
+              "build) and bounded resident-set growth over alloc/free cycles (plain builds).  Not covered: alignments above 4096, the typed "
+              "alignedMalloc<T>(n) overload for element counts whose byte size overflows, allocators rebound to another alignment.  "
               "Trusted: TLC, the driver's pattern fill / byte comparison and pointer-to-limb conversion, LSan, /proc/self/statm, g++/libstdc++")
 TECHNIQUE = ("TLA+ contract specification parameterised over address arithmetic + TLC (invariants, negative controls); TLC trace validation of "
              "recorded executions of the real allocator over limb arithmetic; TLA+ ADT specification with state-graph histories replayed on "
@@ -55,8 +58,9 @@ def unlimbs(l):
 
 
 def size_class(size_limbs):
+    """argument class of a request size for signatures (one finding = one family of sizes)"""
     s = unlimbs(size_limbs)
-    return str(s) if s <= (1 << 20) else "huge"
+    return "0" if s == 0 else "1..63" if s < 64 else "64..4097" if s <= 4097 else "2^20" if s <= (1 << 20) else "huge"
 
 
 def backends(chk):
@@ -198,8 +202,8 @@ def why(spec_dir, module, cfg, events, tag):
     rej = re.search(r'TRACE-REJECTED-AT-LINE",\s*(\d+)', r.out)
     if r.ok or not rej:
         return None, None          # not reproducible: do not report
-    m = re.search(r'"C14-REASON",\s*\d+,\s*"([^"]*)"', r.out)
-    return int(rej.group(1)) - 1, (m.group(1) if m else "no-such-action")
+    m = re.search(r'"C14-REASON",\s*\d+,\s*"([^"]*)"(?:,\s*"([^"]*)")?', r.out)
+    return int(rej.group(1)) - 1, ((m.group(1), m.group(2)) if m else ("no-such-action", None))
 
 
 def validate_start(pool, spec_dir, module, cfg, executions, execs, tag, sig_prefix, meta, cls_of):
@@ -222,10 +226,11 @@ def validate_finish(chk, job):
         if line is None:
             raise tla.InfraError("rejection of execution %d of %s was not reproduced on re-validation" % (rj["exec"], tag))
         ev = evs[line]
+        reason, cls = reason                     # the violated clause and (vector) the argument class, both named by TLC
         if ev.get("a") == "crash":
             reason = "crash"
         action = ev.get("during") or ev.get("a")
-        sig = "%s/%s(%s)/%s" % (sig_prefix, action, cls_of(ev), reason)
+        sig = "%s/%s(%s)/%s" % (sig_prefix, action, cls if cls is not None else cls_of(ev), reason)
         what = "%s: recorded execution %d rejected by %s at event %d (%s): %s" % (sig_prefix, rj["exec"], module, line, reason, json.dumps(ev)[:400])
         rep = {"kind": "trace", "property": chk.pid, "tag": tag, "sig_prefix": sig_prefix, "meta": meta, "module": module, "cfg": cfg,
                "actions": executions[rj["exec"]], "events": evs, "rejected_at": line, "reason": reason}
@@ -272,10 +277,7 @@ def heap_cls(ev):
 
 
 def vec_cls(ev):
-    arg = ev.get("arg") or {}
-    if ev.get("a") == "Allocate":
-        return "n=%s%+d" % (arg.get("rel"), arg.get("d", 0))
-    return ""
+    return ""                  # the class of a vector step is named by the specification (last.cls)
 
 
 def heap_stats(execs):
@@ -293,7 +295,7 @@ def heap_stats(execs):
                 p = tuple(o["p"])
                 if any(p):
                     st["nonnull"] += 1
-                    c = size_class(ev["arg"]["size"])
+                    c = str(unlimbs(ev["arg"]["size"]))
                     st["nonnull_by_size"][c] = st["nonnull_by_size"].get(c, 0) + 1
                     if p in freed:
                         st["reuse_of_freed_base"] += 1
@@ -336,6 +338,8 @@ def model_checks_start(pool, quick):
         ("mc", SPEC_MEM, "HeapLimbsMC", "HeapLimbsMC.cfg", "limb arithmetic = integer arithmetic (add, <=, in-space, alignment) on base 4 x 3 limbs; spot checks at base 2^16"),
         ("mc", SPEC_MEM, "HeapMC", "HeapMC.cfg" if quick else "HeapMC_thorough.cfg",
          "every contract-obeying allocator: blocks pairwise disjoint, aligned, in space, intact over the full extent; steps touch only their own block"),
+        ("mc", SPEC_MEM, "HeapMC", "HeapMC_why.cfg",
+         "Free may leave stale content (address space 1..6, 2 live blocks): still intact; the clause names of reports agree with the contract predicates"),
         ("neg", SPEC_MEM, "HeapMC", "HeapMC_neg_noalign.cfg", "AllAligned", "allocator that ignores the alignment argument"),
         ("neg", SPEC_MEM, "HeapMC", "HeapMC_neg_overlap.cfg", "Intact", "allocator that ignores live blocks"),
         ("neg", SPEC_MEM, "HeapMC", "HeapMC_neg_underalloc.cfg", "Intact", "allocator that reserves size-1 bytes"),
@@ -348,7 +352,7 @@ def model_checks_start(pool, quick):
     ]
 
     def run(j):
-        w = 6 if j[0] == "mc" and j[2] in ("HeapMC", "AlignedVec") else 2
+        w = 6 if j[0] == "mc" and j[3].split(".")[0] in ("HeapMC", "HeapMC_thorough", "AlignedVecMC", "AlignedVecMC_thorough") else 2
         return tla.run_tlc(os.path.join(j[1], j[2] + ".tla"), os.path.join(j[1], j[3]), workers=w, timeout=2400, tag=j[0] + "-" + j[3])
 
     return [(j, pool.submit(run, j)) for j in jobs]
@@ -443,13 +447,13 @@ def rand_vec_actions(rnd, n, byte_sized):
 
 
 def vec_stats(execs):
-    st = {"steps": 0, "storage_moved": 0, "max_size": 0, "allocate_len_err": 0, "allocate_ok": 0, "allocate_bad_alloc": 0}
+    st = {"steps": 0, "storage_moved": 0, "max_len": 0, "allocate_len_err": 0, "allocate_ok": 0, "allocate_bad_alloc": 0}
     for evs in execs:
         for ev in evs:
             o = ev.get("obs") or {}
             st["steps"] += 1
             st["storage_moved"] += sum(1 for m in o.get("moved", []) if m)
-            st["max_size"] = max([st["max_size"]] + list(o.get("sizes", [])))
+            st["max_len"] = max([st["max_len"]] + list(o.get("sizes", [])))
             if ev["a"] == "Allocate":
                 r = o.get("ret")
                 if r == "length_error": st["allocate_len_err"] += 1
@@ -459,7 +463,7 @@ def vec_stats(execs):
 
 
 def vec_gen_start(chk, pool, quick):
-    budget = 6000 if quick else 150000
+    budget = 6000 if quick else 60000
     gf = {}
     for byte_sized, cfg in ((False, "AlignedVecGen.cfg"), (True, "AlignedVecGen_byte.cfg")):
         gf[byte_sized] = pool.submit(adtcheck.gen_histories, chk, SPEC_CON, "AlignedVec", cfg, budget, 6, walks=600 if quick else 6000, walk_len=40,
@@ -515,8 +519,9 @@ def vec_part(chk, pool, quick, rnd, exes, gf):
         jobs.append(validate_start(pool, SPEC_CON, "AlignedVecTrace", "AlignedVecTrace_byte.cfg" if byte_sized else "AlignedVecTrace.cfg",
                                    executions, execs, tag, prefix, dict(meta, label=lab), vec_cls))
         chk.cov["evaluations"] += len(executions)
-        if not byte_sized and not any(ev["a"] == "crash" for evs in execs for ev in evs) and not st["allocate_len_err"]:
-            raise tla.InfraError("vacuity guard: no allocate() beyond max_size() was recorded for %s" % prefix)
+        beyond = sum(1 for e in executions for a in e if a["a"] == "Allocate" and a["arg"]["rel"] in ("max", "ovf") and a["arg"]["d"] > 0)
+        if not byte_sized and not beyond:
+            raise tla.InfraError("vacuity guard: no allocate() request beyond max_size() in the random executions for %s" % prefix)
     if not chk.violations and moved_total < 100:
         raise tla.InfraError("vacuity guard: storage moved only %d times in the recorded vector executions" % moved_total)
     return jobs
